@@ -194,6 +194,7 @@ pub fn h_ser_extensions<S: Src, const PART: u8>(s: &mut S) {
         Err(_) => vassert!(s, false, "gen_tls_extension(SNI) succeeds"),
     }
     }
+    // (a zero / two-entry SNI list through many_ref times out in CBMC at 600 s - measured; the serializer_roundtrip stand-in covers it)
     if PART == 1 {
     let e = TlsExtension::MaxFragmentLength(mfl);
     let mut w = W::new();
